@@ -486,24 +486,35 @@ COORD_COLUMNS = {"left", "right", "position"}
 
 
 def shift_kind(ctx, py, rule="PY-SHIFT-KIND", floor=3):
-    ctx.rule(rule, "ltrim / rtrim / trim shift genome coordinates only: every `<column> - leftmost` names a left / right / position "
-                   "column explicitly (or selects it by NAME from those three); times, ids and metadata are never selected by dtype "
-                   "or position")
+    ctx.rule(rule, "ltrim / rtrim / trim shift genome coordinates only: every `<column> - <shift>` (the shift is the local taken "
+                   "from np.min / np.max of an edge coordinate, whatever it is called) names a left / right / position column "
+                   "explicitly, or selects it by NAME from those three; times, ids and metadata are never selected by dtype or "
+                   "position; and each of edges.left, edges.right, sites.position, migrations.left, migrations.right is shifted")
     m = py.mod("tables")
     n = 0
     for qn, fn in m.funcs.items():
         if qn.split(".")[-1] not in ("ltrim", "rtrim", "trim"):
             continue
         par = _parents(fn)
+        # the shift: a local bound to the minimum / maximum of a coordinate column (resolved by role, not by spelling)
+        shifts = set()
         for x in ast.walk(fn):
-            if isinstance(x, ast.BinOp) and isinstance(x.op, ast.Sub) and isinstance(x.right, ast.Name) and x.right.id in ("leftmost", "rightmost", "offset"):
+            if isinstance(x, ast.Assign) and len(x.targets) == 1 and isinstance(x.targets[0], ast.Name) and isinstance(x.value, ast.Call) \
+                    and ast.unparse(x.value.func).split(".")[-1] in ("min", "max", "amin", "amax") \
+                    and any(isinstance(y, ast.Attribute) and y.attr in COORD_COLUMNS for y in ast.walk(x.value)):
+                shifts.add(x.targets[0].id)
+        if not shifts:
+            continue
+        shifted, by_name = set(), False
+        for x in ast.walk(fn):
+            if isinstance(x, ast.BinOp) and isinstance(x.op, ast.Sub) and isinstance(x.right, ast.Name) and x.right.id in shifts:
                 lhs = x.left
                 if isinstance(lhs, ast.Attribute):
                     n += 1
                     ok = lhs.attr in COORD_COLUMNS | {"sequence_length"}
+                    shifted.add(ast.unparse(lhs).replace("self.", ""))
                     ctx.ob(rule, "%s|%s" % (qn, ast.unparse(lhs)), ok, m.loc(x), "`%s` shifts a %s" % (ast.unparse(x), "coordinate" if ok else "NON-coordinate column"))
                 else:
-                    # a computed operand: the selection must be by name
                     g, sel = x, None
                     while g in par:
                         g = par[g]
@@ -513,20 +524,18 @@ def shift_kind(ctx, py, rule="PY-SHIFT-KIND", floor=3):
                     names_ok = sel is not None and isinstance(sel, ast.Compare) and isinstance(sel.ops[0], ast.In) \
                         and isinstance(sel.comparators[0], (ast.Tuple, ast.List, ast.Set)) \
                         and all(isinstance(e, ast.Constant) and e.value in COORD_COLUMNS for e in sel.comparators[0].elts)
+                    by_name = by_name or names_ok
                     n += 1
-                    ctx.ob(rule, "%s|%s" % (qn, ast.unparse(lhs)[:30]), names_ok, m.loc(x),
+                    ctx.ob(rule, "%s|computed-operand" % qn, names_ok, m.loc(x),
                            "`%s` shifts columns selected by name" % ast.unparse(x) if names_ok else
                            "`%s` shifts columns selected by `%s`, not by name: a float time column is shifted too"
                            % (ast.unparse(x), ast.unparse(sel)[:50] if sel is not None else "nothing"))
-    # the five coordinate columns are each shifted explicitly (a violated obligation, not an anchor error, when one disappears)
-    lt = m.funcs.get("TableCollection.ltrim")
-    if lt is None:
-        ctx.need(False, "TableCollection.ltrim")
-    src = ast.unparse(lt)
-    by_name = any(o["rule"] == rule and o["ok"] and "selected by name" in o.get("detail", o.get("why", "")) for o in ctx.obligations)
-    for col in ("edges.left", "edges.right", "sites.position", "migrations.left", "migrations.right"):
-        ok = ("self.%s - leftmost" % col) in src or by_name
-        ctx.ob(rule, "TableCollection.ltrim|%s" % col, ok, m.loc(lt), "self.%s - leftmost %s" % (col, "is written out" if ok else "is not written out: the column is shifted, if at all, by a computed selection"))
+        if qn.split(".")[-1] == "ltrim":
+            for col in ("edges.left", "edges.right", "sites.position", "migrations.left", "migrations.right"):
+                ok = col in shifted or by_name
+                ctx.ob(rule, "%s|%s" % (qn, col), ok, m.loc(fn), "%s is shifted" % col if ok else
+                       "%s is not shifted explicitly (and no by-name selection shifts it)" % col)
+    ctx.ob(rule, "instances", n >= 1, m.rel, "%d shifted operands analysed" % n)
     return n
 
 
